@@ -1484,6 +1484,17 @@ pub fn configs(prop: SProp, tier: Tier) -> Vec<SCfg> {
                 let reqs = vec![mk(0, 10_000, true), mk(1, 10_000, true), mk(2, d2, f2)];
                 out.push(base(reqs, None, 1, Flavour::Coupled, 1, alpha));
             }
+            // one request is cancelled by its caller, a sibling with a later deadline stays in flight:
+            // the sibling is still aborted at its deadline (seeded change C06l left the cancelled
+            // request's timer behind and stopped draining the timer queue when it fired)
+            for (d0, d1) in [(50i64, 100i64), (1, 50), (50, 10_000)] {
+                for route in [Route::Requests, Route::Execute] {
+                    let mk = |id: u64, d: i64| ReqCfg { deadline_ms: d, ..ReqCfg::simple(id, false) };
+                    let mut c = base(vec![mk(0, d0), mk(1, d1), ReqCfg::cancel_of(0)], None, 1, Flavour::Always, 1, alpha);
+                    c.route = route;
+                    out.push(c);
+                }
+            }
             // the peer has stopped sending (end of the inbound side) but still reads: requests in
             // flight keep their deadlines (seeded change C08h stopped driving the timers of a
             // half-closed connection)
@@ -1796,6 +1807,20 @@ pub fn configs(prop: SProp, tier: Tier) -> Vec<SCfg> {
                                 }
                             }
                         }
+                    }
+                    // a pipelining peer: request, its cancellation and further requests all sent before
+                    // the server runs; the application drops the cancelled request's handler without
+                    // ever polling it (its guard posts a notice for a request that is already gone): the
+                    // limiter still counts what is really in flight (seeded change C12l subtracted the
+                    // queued notices from the count)
+                    if (1..=2).contains(&l) && *cap == 1 {
+                        let mut rs = vec![ReqCfg::simple(0, false), ReqCfg::cancel_of(0)];
+                        for i in 1..=(l as u64 + 1) {
+                            rs.push(ReqCfg::simple(i, false));
+                        }
+                        let mut c = base(rs, Some(l), 1, *fl, *cap, alpha | S_DROPH);
+                        c.burst = true;
+                        out.push(c);
                     }
                     // a handler panics (the executor contains the panic and drops the task, as
                     // tokio::spawn does): its slot is given back like any other (seeded change C12k /
